@@ -316,14 +316,57 @@ class C05(Prop):
         for r in obs["runs"]:
             ns, reg = self.model_ns(r["nsspec"], r["registry"])
             reqs.append(dict(op="findMissing", prog=located, builtins=b, ns=ns, registry=reg))
+        nb = len(case["prog"]["body"])
+        for r in obs["runs"]:
+            idx = {m: k for k, (m, _) in enumerate(r["registry"])}
+            g = {}
+            for d in r["nsspec"]:
+                for n, v in d.items():
+                    g[n] = ["mod", idx[v[1]]] if v[0] == "mod" else (["none"] if v[0] == "none" else ["obj"])
+            mods = [[m, [[a, v] for a, v in at]] for m, at in r["registry"]]
+            reqs.append(dict(op="exec", body=located[:nb], calls=located[nb:], globals=[[n, v] for n, v in g.items()],
+                             mods=mods, builtins=[n for n, _ in b], fuel=4000))
         return reqs
 
     def compare(self, case, obs, resps):
-        for i, (r, m) in enumerate(zip(obs["runs"], resps)):
+        nr = len(obs["runs"])
+        d = self.compare_exec(case, obs, resps[nr:])
+        if d:
+            return d
+        for i, (r, m) in enumerate(zip(obs["runs"], resps[:nr])):
             if isinstance(r["report"], dict):
                 return "run %d: implementation raised %s" % (i, r["report"]["err"])
             if r["report"] != m["missing"]:
                 return "run %d: find_missing_imports=%r model=%r src=%r ns=%r" % (i, r["report"], m["missing"], obs["src"], r["nsspec"])
+        return None
+
+    @staticmethod
+    def _comp_targets(case):
+        out = set()
+        for st in G.walk_stmts(G.all_stmts(case["prog"])):
+            es, ts = G.stmt_exprs(st)
+            for e in es + ts:
+                for x in G.walk_exprs(e):
+                    if x[0] in ("listComp", "setComp", "genExp", "dictComp"):
+                        for g in x[-1]:
+                            out |= G.target_names(g[0])
+        return out
+
+    def compare_exec(self, case, obs, resps):
+        """K(b): the reference semantics (Pfb.PyCore.Exec) against CPython, run by run."""
+        if case.get("ext"):
+            return None
+        for i, (r, m) in enumerate(zip(obs["runs"], resps)):
+            oc = r["outcome"]
+            oc = "Local" if oc in ("UnboundLocal", "FreeVar") else oc
+            if oc.startswith("Other") or r.get("other_raised") or m["other"] or m["outcome"] in ("Fuel", "Other"):
+                continue       # a typed exception neither side models exactly: not compared
+            got = (oc, r["ne"], r["ae"], sorted(set(r["local_ne"])), r["early"])
+            want = (m["outcome"], m["ne"], m["ae"], sorted(set(m["lne"])), m["early"])
+            if got != want and set(r["local_ne"]) - set(m["lne"]) and (set(r["local_ne"]) & self._comp_targets(case)):
+                continue       # CPython 3.12 inlined-comprehension quirk (PEP 709): a sibling comprehension's target makes the name a fast local
+            if got != want:
+                return "run %d: CPython %r  Exec model %r  src=%r ns=%r loaded=%r" % (i, got, want, obs["src"], r["nsspec"], r["loaded"])
         return None
 
     def nontrivial_key(self, case, obs):
